@@ -3,6 +3,7 @@ package core
 import (
 	"fmt"
 	"go/token"
+	"go/types"
 	"sort"
 	"strings"
 
@@ -38,6 +39,28 @@ func (l Lin) Opaque() bool {
 		}
 	}
 	return false
+}
+
+// smallBounded: every atom is a remainder by a constant (x%K) with a small non-negative
+// coefficient, so the value fits any 32-bit or wider integer type whatever x is.
+func (l Lin) smallBounded() bool {
+	if l.C0 < 0 || l.C0 > 1<<30 {
+		return false
+	}
+	for k, c := range l.Terms {
+		if c < 0 || c > 1<<10 || strings.HasPrefix(k, "?") || strings.HasPrefix(k, "conv<") {
+			return false
+		}
+		i := strings.LastIndex(k, "%")
+		if i < 0 {
+			return false
+		}
+		var m int64
+		if _, err := fmt.Sscanf(k[i+1:], "%d", &m); err != nil || m <= 0 || m > 1<<20 || strings.ContainsAny(k[i+1:], "+-*/ ") {
+			return false
+		}
+	}
+	return true
 }
 
 func (l Lin) Coef(atom string) int64 { return l.Terms[atom] }
@@ -131,6 +154,9 @@ func linEval(v ssa.Value, src func(ssa.Value) string, env map[*ssa.Parameter]ssa
 	}
 	switch x := v.(type) {
 	case *ssa.Convert:
+		if inner := linEval(x.X, src, env, depth+1); lossyIntConv(x) && !inner.smallBounded() {
+			return linAtom("conv<" + x.X.Type().String() + "→" + x.Type().String() + ">(" + inner.String() + ")")
+		}
 		return linEval(x.X, src, env, depth+1)
 	case *ssa.ChangeType:
 		return linEval(x.X, src, env, depth+1)
@@ -242,6 +268,9 @@ func linEvalSub(v ssa.Value, src func(ssa.Value) string, env, outer map[*ssa.Par
 	}
 	switch x := v.(type) {
 	case *ssa.Convert:
+		if inner := linEvalSub(x.X, src, env, outer, depth+1); lossyIntConv(x) && !inner.smallBounded() {
+			return linAtom("conv<" + x.X.Type().String() + "→" + x.Type().String() + ">(" + inner.String() + ")")
+		}
 		return linEvalSub(x.X, src, env, outer, depth+1)
 	case *ssa.ChangeType:
 		return linEvalSub(x.X, src, env, outer, depth+1)
@@ -299,4 +328,35 @@ func linEvalSub(v ssa.Value, src func(ssa.Value) string, env, outer map[*ssa.Par
 		}
 	}
 	return linAtom(fmt.Sprintf("?%p", v))
+}
+
+// lossyIntConv: an integer conversion that does not preserve every value of its operand: an
+// unsigned value to a signed type that is not wider (uint64 → int turns slots >= 2^63 negative,
+// and signed / and % then round toward zero), or any narrowing. Such a conversion is not
+// transparent to the index arithmetic; the converted value becomes an atom of its own.
+func lossyIntConv(c *ssa.Convert) bool {
+	from, ok1 := c.X.Type().Underlying().(*types.Basic)
+	to, ok2 := c.Type().Underlying().(*types.Basic)
+	if !ok1 || !ok2 || from.Info()&types.IsInteger == 0 || to.Info()&types.IsInteger == 0 {
+		return false
+	}
+	if _, isConst := c.X.(*ssa.Const); isConst {
+		return false
+	}
+	bits := func(b *types.Basic) int {
+		switch b.Kind() {
+		case types.Int8, types.Uint8:
+			return 8
+		case types.Int16, types.Uint16:
+			return 16
+		case types.Int32, types.Uint32:
+			return 32
+		}
+		return 64
+	}
+	fu, tu := from.Info()&types.IsUnsigned != 0, to.Info()&types.IsUnsigned != 0
+	if bits(to) < bits(from) {
+		return true
+	}
+	return fu && !tu && bits(to) <= bits(from)
 }
